@@ -44,9 +44,9 @@ def static_half(ctx, res):
     from .genspace import enumerate_with_seeds
     from .pool import Pool
     if ctx.quick:
-        descs, _, _ = enumerate_with_seeds(["job", "jobout"], ["job-up", "job-holder", "job-outpre"], N=5, k=3, kseed=1, allow=("struct", "pre"))
+        descs, _, _ = enumerate_with_seeds(["job", "jobout"], ["job-up", "job-holder", "job-outpre", "job-upx"], N=5, k=3, kseed=1, allow=("struct", "pre"))
     else:
-        descs, _, _ = enumerate_with_seeds(["job", "jobout"], ["job-up", "job-holder", "job-outpre"], N=6, k=4, kseed=2, allow=("struct", "pre"))
+        descs, _, _ = enumerate_with_seeds(["job", "jobout"], ["job-up", "job-holder", "job-outpre", "job-upx"], N=6, k=4, kseed=2, allow=("struct", "pre"))
     with Pool(seeds=[(ctx.seed + i) % 4096 for i in range(16)], init="engines.gwork:init") as pool:
         outs = pool.map("engines.gwork:eval_deps", [{"G": d} for d in descs])
     n, shapes, extra = 0, set(), 0
